@@ -66,12 +66,13 @@ PLAN = {
                 "macro shapes x 3 kinds + 4 describe shapes x 3 kinds; after every emission the logging doubles' logs are compared "
                 "with a scope model (innermost live install, else global double, else nothing). case = program; distinct = program "
                 "hash; non-trivial = contains a non-LIFO guard end, a forget, a panic unwinding through a scope, or runs beside other threads. "
-                "ASan/Miri legs free each recorder the moment the model says its last borrow ended.",
+                "ASan/Miri legs free each recorder the moment the model says its last borrow ended. late-global leg: a fresh process per shard in which threads emit (caching 'no recorder') before, while and after the global recorder is installed; every emission that begins after set_global_recorder returned must reach it.",
         "assumptions": ["scope model: the recorder in scope is the most recently installed one whose guard/closure is still alive",
                         "after mem::forget(guard) only the 'never dispatched after the borrow ended' clause is judged on that thread"],
         "legs": [
             {"name": "native", "flavour": "native", "shards": 4, "shards_thorough": 16},
             {"name": "native-global", "flavour": "native", "shards": 4, "shards_thorough": 16},
+            {"name": "late-global", "flavour": "native", "shards": 8, "shards_thorough": 100},
             {"name": "asan", "flavour": "asan", "shards": 4, "shards_thorough": 16},
             {"name": "miri", "flavour": "miri", "shards": 8, "shards_thorough": 64, "timeout": 1200},
         ],
@@ -186,12 +187,13 @@ PLAN = {
                 "cumulative, never decreasing over time, +Inf == count, single == batched, sums (exact on dyadic samples). matchers leg: "
                 "0-5 Full/Prefix/Suffix overrides + optional global buckets vs a reference precedence (judged when the winning class has one "
                 "candidate). window leg: RollingSummary under a mock clock (1-5 buckets, 1 ns - 20 s), steps at bucket/window edges +-1 ns, "
-                "outlier samples; snapshot count and quantiles vs certainly-in / possibly-in sample sets. distinct = case hash.",
+                "outlier samples; snapshot count and quantiles vs certainly-in / possibly-in sample sets. distinct = case hash. exposed leg: the same precedence question asked of the rendered text — builder with 0-3 overrides (generic or aimed at the metric's own name, head or tail), optional global buckets, unit suffix on/off, described unit; the family (named with the unit suffix) must have TYPE histogram + _bucket{le} series with the chosen bounds and exact cumulative counts exactly when buckets apply, TYPE summary + quantile series otherwise.",
         "assumptions": ["a sample is certainly in the window if younger than window - bucket_duration and certainly expired if older than the window",
                         "quantile tolerance 1e-3 relative (sketch alpha 1e-4)"],
         "legs": [
             {"name": "buckets", "flavour": "native", "shards": 2, "shards_thorough": 8},
             {"name": "matchers", "flavour": "native", "shards": 2, "shards_thorough": 8},
+            {"name": "exposed", "flavour": "native", "shards": 2, "shards_thorough": 8},
             {"name": "window", "flavour": "native", "shards": 4, "shards_thorough": 16},
         ],
     },
@@ -302,11 +304,12 @@ PLAN = {
                 "fields; filters: include-all, allow-lists, a custom filter. After each emission the key received by the inner logging "
                 "recorder is compared with a reference (own labels + admitted fields of the current span as of its creation chain, metric > "
                 "inner > outer, later record replaces, no duplicate names, unchanged without span). distinct = script+filter hash; "
-                "non-trivial = a span inherited fields from a parent.",
+                "non-trivial = a span inherited fields from a parent. shared-span leg: one span shared by two threads that record different fields of it in spin-synchronised rounds (12k-60k per scenario); after each round a metric emitted in the span must carry this round's value of every field.",
         "assumptions": ["re-entering a span that is already on the thread's span stack is not generated (tracing keeps the previous current span there)"],
         "legs": [
             {"name": "native", "flavour": "native", "shards": 4, "shards_thorough": 16},
             {"name": "asan", "flavour": "asan", "shards": 2, "shards_thorough": 8, "thorough_only": True},
+            {"name": "shared-span", "flavour": "native", "shards": 2, "shards_thorough": 8},
         ],
     },
     "C18": {
@@ -317,10 +320,11 @@ PLAN = {
                 "of 2-15 concurrent scrapers while a counter changes, garbage bytes, half-open requests, SO_LINGER-0 resets; every "
                 "response is parsed (status line, headers, content-length/chunked body) and judged against an independent CIDR reference, "
                 "the strict exposition parser and value bounds [before request, after response]; a final well-formed client must be "
-                "served. distinct = (allowlist, action sequence) hash.",
+                "served. distinct = (allowlist, action sequence) hash. v6 leg: exporters on [::1] and on [::] (dual-stack) with allowlists mixing IPv6 and IPv4 entries; the IPv6 loopback peer and IPv4 peers reaching the dual-stack listener (reported as ::ffff:a.b.c.d) are judged against an independent CIDR reference (IPv4 entries never contain an IPv6 peer; an IPv4 client is inside an IPv4 entry that contains its address).",
         "assumptions": ["server readiness is established by a successful probe connection", "a port collision at exporter start is inconclusive for that exporter"],
         "legs": [
             {"name": "native", "flavour": "native", "shards": 4, "shards_thorough": 16, "timeout": 900},
+            {"name": "v6", "flavour": "native", "shards": 2, "shards_thorough": 8, "timeout": 900},
         ],
     },
     "C11": {
@@ -332,13 +336,14 @@ PLAN = {
                 "next round only after every open reading client received the previous one (ack-based pacing). Every captured byte stream "
                 "is decoded by a hand-written varint/protobuf decoder of event.proto: whole frames only, metadata first and complete, "
                 "content intact, per-emitter order, no duplicates, no gaps for reading clients; after every round the exporter's "
-                "(client_count, should_send) is compared with the open accepted harness clients. distinct = (scenario, bytes) hash.",
+                "(client_count, should_send) is compared with the open accepted harness clients. distinct = (scenario, bytes) hash. vanish leg: buffer_size(None), 3-5 streaming readers, one emitter sending 2-32 KiB metrics every 50-800 us, and a transient client that 10-40 times connects with a 4 KiB receive buffer, stops reading for 100-300 ms (the exporter accumulates a backlog for it) and is reset; every reader's (emitter, seq) stream must stay gap-free.",
         "assumptions": ["a burst not acknowledged within the 8 s watchdog without logical evidence of loss (gap / wrong accounting) is inconclusive",
                         "descriptions are paced (4 ms apart) for buffers <= 4 because they share the bounded channel with metrics"],
         "legs": [
             {"name": "native", "flavour": "native", "shards": 4, "shards_thorough": 16, "timeout": 1800},
             {"name": "stall", "flavour": "native", "shards": 2, "shards_thorough": 8, "timeout": 1800},
             {"name": "wake", "flavour": "native", "shards": 2, "shards_thorough": 8, "timeout": 1800},
+            {"name": "vanish", "flavour": "native", "shards": 2, "shards_thorough": 4, "timeout": 1800},
         ],
     },
 }
